@@ -34,6 +34,7 @@
 #include <dispenso/once_function.h>
 #include <dispenso/platform.h>
 #include <dispenso/tsan_annotations.h>
+#include <dispenso/detail/verif_hooks.h>
 
 namespace dispenso {
 
@@ -332,6 +333,12 @@ class DISPENSO_CACHELINE_ALIGNED ThreadPool {
   }
 
  public:
+#if defined(DISPENSO_VERIF)
+  // Read-only probe of the pending-work counter (verification builds only).
+  ssize_t verifWorkRemaining() const {
+    return workRemaining_.load(std::memory_order_relaxed);
+  }
+#endif // DISPENSO_VERIF
   // If we are not yet C++17, we provide aligned new/delete to avoid false sharing.
 #if __cplusplus < 201703L
   static void* operator new(size_t sz) {
@@ -396,6 +403,7 @@ class DISPENSO_CACHELINE_ALIGNED ThreadPool {
     }
     // Mark queue as possibly-non-empty so spinning workers will try_dequeue.
     centralQueueNonEmpty_.store(true, std::memory_order_relaxed);
+    DISPENSO_VERIF_EVENT("pool.enq.central", this, token, 1);
   }
 
   // Push task i to ring i (linear layout) for fork-join scheduling.
@@ -577,10 +585,14 @@ DISPENSO_INLINE bool ThreadPool::shouldRunInline() {
 template <bool kPlaced, typename F>
 inline void ThreadPool::forceEnqueue(F&& f, moodycamel::ProducerToken* token) {
   if (!numThreads_.load(std::memory_order_relaxed)) {
+    DISPENSO_VERIF_EVENT("pool.load.numThreads", this, 0, 1);
+    DISPENSO_VERIF_EVENT("pool.inline", this, 1, 0);
     f();
     return;
   }
+  DISPENSO_VERIF_EVENT("pool.load.numThreads", this, 1, 1);
   workRemaining_.fetch_add(1, std::memory_order_release);
+  DISPENSO_VERIF_EVENT("pool.wr.add", this, 1, 1);
   if (kPlaced) {
     scheduleImplPlaced({std::forward<F>(f)}, token);
   } else {
@@ -592,6 +604,7 @@ template <typename F>
 DISPENSO_REQUIRES(OnceCallableFunc<F>)
 inline void ThreadPool::schedule(F&& f) {
   if (shouldRunInline()) {
+    DISPENSO_VERIF_EVENT("pool.inline", this, 0, 0);
     f();
   } else {
     schedule(std::forward<F>(f), ForceQueuingTag());
@@ -609,6 +622,7 @@ inline void ThreadPool::schedule(F&& f, ForceQueuingTag) {
 template <typename F>
 inline void ThreadPool::schedule(moodycamel::ProducerToken& token, F&& f) {
   if (shouldRunInline()) {
+    DISPENSO_VERIF_EVENT("pool.inline", this, 0, 0);
     f();
   } else {
     schedule(token, std::forward<F>(f), ForceQueuingTag());
@@ -624,6 +638,7 @@ template <typename F>
 DISPENSO_REQUIRES(OnceCallableFunc<F>)
 inline void ThreadPool::schedulePlaced(F&& f) {
   if (shouldRunInline()) {
+    DISPENSO_VERIF_EVENT("pool.inline", this, 0, 0);
     f();
   } else {
     schedulePlaced(std::forward<F>(f), ForceQueuingTag());
@@ -641,6 +656,7 @@ inline void ThreadPool::schedulePlaced(F&& f, ForceQueuingTag) {
 template <typename F>
 inline void ThreadPool::schedulePlaced(moodycamel::ProducerToken& token, F&& f) {
   if (shouldRunInline()) {
+    DISPENSO_VERIF_EVENT("pool.inline", this, 0, 0);
     f();
   } else {
     schedulePlaced(token, std::forward<F>(f), ForceQueuingTag());
@@ -688,11 +704,13 @@ DISPENSO_INLINE void ThreadPool::scheduleImplPlaced(
         size_t stealIdx = static_cast<size_t>(wokeThread) / stealRingSharing_;
         if (stealIdx < numStealRings_.load(std::memory_order_relaxed) &&
             stealRings_[stealIdx].try_push(std::move(task))) {
+          DISPENSO_VERIF_EVENT("pool.steal.push", this, stealIdx, 1);
           if (stealIdx < kMaxStealRings) {
             stealRingsWithWork_.fetch_or(uint64_t{1} << stealIdx, std::memory_order_release);
           }
           return;
         }
+        DISPENSO_VERIF_EVENT("pool.steal.push", this, stealIdx, 0);
       }
     }
   }
@@ -709,6 +727,7 @@ inline bool ThreadPool::tryExecuteNext() {
   bool dequeued = work_.try_dequeue(next);
   DISPENSO_TSAN_ANNOTATE_IGNORE_WRITES_END();
   if (dequeued) {
+    DISPENSO_VERIF_EVENT("pool.pop.central", this, 0, 0);
     executeNext(std::move(next));
     return true;
   }
@@ -718,6 +737,7 @@ inline bool ThreadPool::tryExecuteNext() {
 inline bool ThreadPool::tryExecuteNextFromProducerToken(moodycamel::ProducerToken& token) {
   OnceFunction next;
   if (work_.try_dequeue_from_producer(token, next)) {
+    DISPENSO_VERIF_EVENT("pool.pop.central", this, 2, 0);
     executeNext(std::move(next));
     return true;
   }
@@ -735,6 +755,7 @@ inline bool ThreadPool::tryExecuteNextFromRings(size_t& startRing) {
   for (size_t i = 0; i < n; ++i) {
     size_t idx = (startRing + i) % n;
     if (rings_[idx].try_pop(task)) {
+      DISPENSO_VERIF_EVENT("pool.pop.ring", this, idx, 1);
       startRing = idx;
       executeNext(std::move(task));
       return true;
@@ -747,6 +768,7 @@ inline bool ThreadPool::tryExecuteNextFromRings(size_t& startRing) {
 inline void ThreadPool::executeNext(OnceFunction next) {
   next();
   workRemaining_.fetch_add(-1, std::memory_order_relaxed);
+  DISPENSO_VERIF_EVENT("pool.wr.sub", this, 1, 1);
 }
 
 DISPENSO_INLINE bool ThreadPool::tryFindAndExecuteWork(
@@ -761,6 +783,7 @@ DISPENSO_INLINE bool ThreadPool::tryFindAndExecuteWork(
   if (preferRing) {
     bool fromRing = myRing.try_pop(task);
     if (fromRing) {
+      DISPENSO_VERIF_EVENT("pool.pop.ring", this, -1, 0);
       task();
       return true;
     }
@@ -769,6 +792,7 @@ DISPENSO_INLINE bool ThreadPool::tryFindAndExecuteWork(
       bool got = work_.try_dequeue(ctoken, task);
       DISPENSO_TSAN_ANNOTATE_IGNORE_WRITES_END();
       if (got) {
+        DISPENSO_VERIF_EVENT("pool.pop.central", this, 1, 0);
         preferRing = false;
         task();
         return true;
@@ -777,6 +801,7 @@ DISPENSO_INLINE bool ThreadPool::tryFindAndExecuteWork(
       centralQueueNonEmpty_.store(false, std::memory_order_relaxed);
     }
     if (!myStealRing.empty() && myStealRing.try_pop(task)) {
+      DISPENSO_VERIF_EVENT("pool.pop.steal", this, myStealIdx, 0);
       task();
       return true;
     }
@@ -789,6 +814,7 @@ DISPENSO_INLINE bool ThreadPool::tryFindAndExecuteWork(
         if (mask != 0) {
           int target = detail::countTrailingZeros(mask);
           if (stealRings_[static_cast<size_t>(target)].try_pop(task)) {
+            DISPENSO_VERIF_EVENT("pool.pop.steal", this, target, 1);
             task();
             return true;
           }
@@ -802,6 +828,7 @@ DISPENSO_INLINE bool ThreadPool::tryFindAndExecuteWork(
       bool got = work_.try_dequeue(ctoken, task);
       DISPENSO_TSAN_ANNOTATE_IGNORE_WRITES_END();
       if (got) {
+        DISPENSO_VERIF_EVENT("pool.pop.central", this, 1, 0);
         task();
         return true;
       }
@@ -809,6 +836,7 @@ DISPENSO_INLINE bool ThreadPool::tryFindAndExecuteWork(
     }
     bool fromRing = myRing.try_pop(task);
     if (fromRing) {
+      DISPENSO_VERIF_EVENT("pool.pop.ring", this, -1, 0);
       preferRing = true;
       task();
       return true;
@@ -843,20 +871,26 @@ DISPENSO_INLINE void ThreadPool::scheduleBulkToRingsFastPath(
         inner();
       };
       if (!rings_[ring].try_push(std::move(wrapped))) {
+        DISPENSO_VERIF_EVENT("pool.ring.push", this, ring, 0);
         enqueueToCentralQueue(std::move(wrapped), fallbackToken);
       }
+      DISPENSO_VERIF_EVENT("pool.ring.push.end", this, ring, 0);
     } else {
       if (!rings_[ring].try_push(std::move(task))) {
+        DISPENSO_VERIF_EVENT("pool.ring.push", this, ring, 0);
         enqueueToCentralQueue(std::move(task), fallbackToken);
       }
+      DISPENSO_VERIF_EVENT("pool.ring.push.end", this, ring, 0);
     }
   }
 #else
   for (size_t ring = 0; ring < count && ring < ringCount; ++ring) {
     OnceFunction task = gen(ring);
     if (!rings_[ring].try_push(std::move(task))) {
+      DISPENSO_VERIF_EVENT("pool.ring.push", this, ring, 0);
       enqueueToCentralQueue(std::move(task), fallbackToken);
     }
+    DISPENSO_VERIF_EVENT("pool.ring.push.end", this, ring, 0);
   }
 #endif
 }
@@ -881,6 +915,7 @@ DISPENSO_INLINE void ThreadPool::scheduleBulkToRingsBatched(
     }
 
     size_t pushed = rings_[ring].try_push_batch(staged, toStage);
+    DISPENSO_VERIF_EVENT("pool.ring.push_batch", this, ring, pushed);
 
     for (size_t j = pushed; j < toStage; ++j) {
       enqueueToCentralQueue(std::move(staged[j]), fallbackToken);
@@ -904,11 +939,13 @@ void ThreadPool::scheduleBulkToRings(
   assert(count <= numRings_.load(std::memory_order_relaxed));
 
   workRemaining_.fetch_add(static_cast<ssize_t>(count), std::memory_order_release);
+  DISPENSO_VERIF_EVENT("pool.wr.add", this, count, 3);
 
   // Acquire: see tryExecuteNextFromRings. Pairs with the release store in
   // resizeLocked so we observe the freshly-constructed rings, not merely the
   // updated count.
   size_t ringCount = numRings_.load(std::memory_order_acquire);
+  DISPENSO_VERIF_EVENT("pool.load.numRings", this, ringCount, count);
   size_t tasksPerRing = (count + ringCount - 1) / ringCount;
 
   if (tasksPerRing <= 1) {
@@ -966,6 +1003,7 @@ void ThreadPool::scheduleBulkEnqueue(
 
   // Single atomic update + bulk enqueue
   workRemaining_.fetch_add(static_cast<ssize_t>(count), std::memory_order_release);
+  DISPENSO_VERIF_EVENT("pool.wr.add", this, count, 2);
 
   DISPENSO_TSAN_ANNOTATE_IGNORE_WRITES_BEGIN();
   bool enqueued;
@@ -977,6 +1015,7 @@ void ThreadPool::scheduleBulkEnqueue(
   DISPENSO_TSAN_ANNOTATE_IGNORE_WRITES_END();
   if (DISPENSO_EXPECT(!enqueued, false)) {
     workRemaining_.fetch_sub(static_cast<ssize_t>(count), std::memory_order_relaxed);
+    DISPENSO_VERIF_EVENT("pool.wr.sub", this, count, 4);
 #if defined(__cpp_exceptions)
     throw std::bad_alloc();
 #else
@@ -985,6 +1024,7 @@ void ThreadPool::scheduleBulkEnqueue(
   }
   // Mark queue as possibly-non-empty so spinning workers will try_dequeue.
   centralQueueNonEmpty_.store(true, std::memory_order_relaxed);
+  DISPENSO_VERIF_EVENT("pool.enq.central", this, token, count);
 
   // Wake appropriate threads. Cap by actual sleeping count to avoid over-waking.
   // Spinning threads (numNotWorking - totalSleeping) will find enqueued work
@@ -1025,6 +1065,7 @@ void ThreadPool::scheduleBulkImpl(size_t count, Generator&& gen) {
   }
 
   ssize_t numPool = numThreads_.load(std::memory_order_relaxed);
+  DISPENSO_VERIF_EVENT("pool.load.numThreads", this, numPool, 2);
   if (!numPool) {
     for (size_t i = 0; i < count; ++i) {
       gen(i)();
@@ -1050,6 +1091,7 @@ void ThreadPool::scheduleBulkImpl(size_t count, Generator&& gen) {
       size_t base = i;
       if (kPlaced) {
         workRemaining_.fetch_add(static_cast<ssize_t>(toEnqueue), std::memory_order_release);
+        DISPENSO_VERIF_EVENT("pool.wr.add", this, toEnqueue, 4);
         for (size_t j = 0; j < toEnqueue; ++j) {
           scheduleImplPlaced({gen(base + j)}, nullptr);
         }
